@@ -238,6 +238,76 @@ def pipes_differ_in_byte0(ck, agg, nn):
     return n
 
 
+def direction(ck, agg):
+    """R04.9: RF24Network.write(frame, traffic_direct): with automatic routing the frame is handed to the router for its destination
+    (TX_NORMAL); with an explicit direction it is transmitted *to that node / level* - physically when that is the destination itself, as
+    a multicast when the frame is addressed to the multicast address, as a logical first hop otherwise (TMRh20 write(header, .., writeDirect))"""
+    from . import c07
+    P = ck.prog
+    nn = net.NetNode(ck, "rf24_network", "RF24Network")
+    mix = P.cls("network.mixins", "NetworkMixin")
+    f_write = P.method(mix, "_write")
+    nn.model.opaque[f_write.qualname] = c07.make_summary(nn, agg, "_write")
+    f = P.method(nn.cls, "write")
+    K = T.CONSTANTS
+    n = 0
+    st, node = nn.fresh(fields={net.FN("_frag_enabled"): True, "max_message_length": 144})
+    frame = net.sym_frame(st, P, "frame", msg_len=4)
+    to_node = st.heap[st.heap[frame.ident].fields["header"].ident].fields["to_node"]
+    net.set_rng(st, "direct", (0, 0o7777))
+    direct = Sym("direct", "int", rng=(0, 0o7777))
+    outs = nn.run(f, node, [frame, direct], st, limits=Limits(max_paths=20000, loop_unroll=2, depth=14, concrete_loop=10))
+    for out in outs:
+        wr = [e for e in out.trace if e.kind == "summary" and e.data[0] == "_write"]
+        if out.kind != "return" or not wr:
+            continue
+        n += 1
+        a0, a1 = [norm(x) for x in wr[0].data[3]["args"][:2]]
+        stype = const_of(a1)
+
+        def eq(x, y):
+            """True / False / None: did the path decide x == y ?"""
+            res = None
+            for e in out.trace:
+                if e.kind == "cond" and e.seq < wr[0].seq and isinstance(e.node, ast.Compare) and isinstance(e.data[1], tuple) and len(e.data[1]) == 2 and isinstance(e.node.ops[0], (ast.Eq, ast.NotEq)):
+                    p_, q_ = [norm(v) for v in e.data[1]]
+                    if (p_.key() == norm(x).key() and q_.key() == norm(y).key()) or (q_.key() == norm(x).key() and p_.key() == norm(y).key()):
+                        res = e.data[0] if isinstance(e.node.ops[0], ast.Eq) else not e.data[0]
+            return res
+        auto = eq(direct, Const(K["AUTO_ROUTING"]))
+        if auto is True:
+            agg.add("R04.9", f, "automatic routing: the frame goes to the router for its destination as TX_NORMAL", a0.key() == norm(to_node).key() and stype == K["TX_NORMAL"],
+                    "write(frame): _write(%r, %r)" % (a0, a1), wr[0].node)
+            continue
+        agg.add("R04.9", f, "an explicit direction is decided by comparing it with AUTO_ROUTING", auto is False, "write(frame, direct): no test of the direction before _write(%r, %r)" % (a0, a1), wr[0].node)
+        mc = eq(to_node, Const(K["NETWORK_MULTICAST_ADDR"]))
+        phys = eq(to_node, direct)
+        if phys is None and mc is True:
+            phys = eq(Const(K["NETWORK_MULTICAST_ADDR"]), direct)      # the destination is known to be the multicast address by then
+        same_as_dest = phys is True and (a0.key() == norm(to_node).key() or (mc is True and const_of(a0) == K["NETWORK_MULTICAST_ADDR"]))
+        agg.add("R04.9", f, "with an explicit direction the frame is transmitted to that node / level", a0.key() == direct.key() or same_as_dest,
+                "write(frame, direct): the frame is handed to _write(%r, ..) - not to the given direction; it goes to the address derived from the header instead" % (a0,), wr[0].node)
+    # the send type, by the three predicates it may depend on (automatic? destination == direction? destination == multicast address?):
+    # one concrete representative per class, so that the decision folds however it is spelled (if-chain, table indexed by the comparisons, ..)
+    MC, AUTO = K["NETWORK_MULTICAST_ADDR"], K["AUTO_ROUTING"]
+    for to_c, dir_c, want, what in ((0o5, 0o5, K["TX_PHYSICAL"], "the direction is the destination"), (MC, 0o10, K["TX_MULTICAST"], "a multicast frame directed at a level"),
+                                    (MC, MC, K["TX_PHYSICAL"], "a multicast frame directed at its own destination"), (0o15, 0o5, K["TX_LOGICAL"], "a unicast frame handed to another first hop"),
+                                    (0o15, AUTO, K["TX_NORMAL"], "automatic routing")):
+        st2, node2 = nn.fresh(fields={net.FN("_frag_enabled"): True, "max_message_length": 144})
+        frame2 = net.sym_frame(st2, P, "frame", {"to_node": to_c}, msg_len=4)
+        for out in nn.run(f, node2, [frame2, Const(dir_c)], st2, limits=Limits(max_paths=20000, loop_unroll=2, depth=14, concrete_loop=10)):
+            wr = [e for e in out.trace if e.kind == "summary" and e.data[0] == "_write"]
+            if out.kind != "return" or not wr:
+                continue
+            n += 1
+            a0, a1 = [const_of(norm(x)) for x in wr[0].data[3]["args"][:2]]
+            agg.add("R04.9", f, "send type: physical to the destination itself, multicast for the multicast address, logical otherwise (normal when routed automatically)",
+                    a1 == want and a0 == (to_c if dir_c == AUTO else dir_c),
+                    "write(frame to %s, direction %s) - %s: _write(%r, send type %r), expected _write(%s, %d)" % (oct(to_c), oct(dir_c), what, a0, a1, oct(to_c if dir_c == AUTO else dir_c), want), wr[0].node)
+    agg.add("R04.9", f, "write() reaches the transmitter (anchor)", n >= 4, "%d paths reach _write()" % n)
+    return n
+
+
 def reconfigure(ck, agg):
     """R04.8: assigning node_address re-runs _begin() for *every* valid value - also the current one (docs/topology: after changing
     address_prefix / address_suffix / allow_multicast the address must be re-assigned so that the six pipes are re-opened on the new
@@ -305,7 +375,9 @@ def run(ck):
     n7 = c14.level_domain(ck, agg, net.NetNode(ck, "rf24_network", "RF24Network"))
     # "pipe addresses never collide": byte k of a pipe address depends on exactly octal digit k-1 of the node address, for all four digits (R14.4)
     c14.pipe_address(ck, agg, net.NetNode(ck, "rf24_network", "RF24Network"))
+    n8 = direction(ck, agg)
     agg.flush()
+    ck.floor("R04.9", "write() paths reaching the transmitter", n8, 4)
     ck.floor("R04.8", "node_address re-assignment scenarios", n6, 4)
     ck.floor("R04.1", "_begin paths", n1, 5)
     ck.floor("R04.5", "next-hop scenarios", n2, 25)
